@@ -615,7 +615,7 @@ def eval_time_spread(case):
 
 @st.composite
 def st_time_spread(draw):
-    case = draw(st_case())
+    case = draw(st_case(merges=draw(st.booleans())))       # the middle repository's history: a tree of branches or a DAG with merges
     case.pop("app", None)
     case.pop("comp2", None)
     pcs = case["parent"]["commits"]
